@@ -8,7 +8,8 @@
    every string of length <= 3 over all 128 ASCII characters plus non-ASCII representatives
    against contracts.prims.regname_bad_at -- the definition the symbolic proof uses.
 2. The NFKC screen.  For every Unicode code point cp >= 128 whose NFKC form contains one of
-   '/', '?', '#', '@', ':' (all 1 114 112 code points are examined) the real split_url rejects
+   '/', '?', '#', '@', ':' (the property's list; since the fix of the fullwidth-bracket defect the
+   code screens '[' and ']' as well, which is examined too) (all 1 114 112 code points are examined) the real split_url rejects
    an authority containing it (in host, user and port position); and no delimiter composes
    with a following code point under NFKC (so a delimiter produced by one character survives
    normalisation of the whole authority).  The statement for whole strings with arbitrary
@@ -123,7 +124,7 @@ def _nfkc_chunk(rng):
         comp = [d for d in "/?#@:" if unicodedata.normalize("NFKC", d + ch)[:1] != d]
         if comp:
             return hits, ("composes", cp, comp)
-        if not any(d in n for d in "/?#@:"):
+        if not any(d in n for d in "/?#@:[]"):
             continue
         hits += 1
         for url in (f"//a{ch}b/p", f"//u{ch}:p@h/", f"//h:8{ch}/", f"http://{ch}", f"//[::1]{ch}/"):
